@@ -141,8 +141,63 @@ func c12Run(r *Run) {
 		}
 	}
 
-	// ---- DELEG: which *VM methods can reach (*VM).Add* ----
+	// ---- DELEG: which *VM methods can reach a (*VM) method that stores a definition ----
 	r.curRule = "C12-DELEG"
+	// a definition store: vm.F[k] = v or vm.F.Store(k, v) with v a class/interface/function statement
+	isDefinition := func(t types.Type) bool {
+		if t == nil {
+			return false
+		}
+		for _, n := range []string{"ClassStmt", "InterfaceStmt", "FuncStmt"} {
+			if isNamed(t, modPath+"/data", n) {
+				return true
+			}
+		}
+		return false
+	}
+	storesDefinition := map[string]bool{}
+	for _, fd := range funcDecls(pkg) {
+		if recvTypeName(fd) != "VM" || len(fd.Recv.List[0].Names) == 0 {
+			continue
+		}
+		recv := info.Defs[fd.Recv.List[0].Names[0]]
+		rooted := func(e ast.Expr) bool {
+			for {
+				switch x := ast.Unparen(e).(type) {
+				case *ast.SelectorExpr:
+					if id, ok := ast.Unparen(x.X).(*ast.Ident); ok && info.Uses[id] == recv {
+						return true
+					}
+					e = x.X
+					continue
+				case *ast.IndexExpr:
+					e = x.X
+					continue
+				}
+				return false
+			}
+		}
+		ast.Inspect(fd.Body, func(n ast.Node) bool {
+			switch x := n.(type) {
+			case *ast.AssignStmt:
+				for i, l := range x.Lhs {
+					if ix, ok := ast.Unparen(l).(*ast.IndexExpr); ok && rooted(ix.X) && i < len(x.Rhs) && isDefinition(info.TypeOf(x.Rhs[i])) {
+						storesDefinition[fd.Name.Name] = true
+					}
+				}
+			case *ast.CallExpr:
+				if se, ok := ast.Unparen(x.Fun).(*ast.SelectorExpr); ok && rooted(se.X) {
+					switch se.Sel.Name {
+					case "Store", "LoadOrStore", "Swap":
+						if len(x.Args) == 2 && isDefinition(info.TypeOf(x.Args[1])) {
+							storesDefinition[fd.Name.Name] = true
+						}
+					}
+				}
+			}
+			return true
+		})
+	}
 	r.buildSSA()
 	sp := r.ssaPkg("runtime")
 	if sp == nil {
@@ -159,15 +214,17 @@ func c12Run(r *Run) {
 			continue
 		}
 		vmMethods[fn.Name()] = fn
-		switch fn.Name() {
-		case "AddClass", "AddInterface", "AddFunc":
+		if storesDefinition[fn.Name()] {
 			targets[fn] = true
 		}
 	}
-	if len(targets) != 3 {
-		r.fail("(*VM).AddClass/AddInterface/AddFunc not all found in SSA")
-		return
+	for _, must := range []string{"AddClass", "AddInterface", "AddFunc"} {
+		if fn := vmMethods[must]; fn == nil || !targets[fn] {
+			r.fail("(*VM).%s not recognised as storing a definition into the base VM", must)
+			return
+		}
 	}
+	r.stat("base_vm_methods_storing_definitions", len(targets))
 	// forward reachability inside the module only: edges through the standard library conflate every
 	// callback of the program (sync.Once.Do, sort.Slice, …); a closure created by a module function is
 	// treated as called by it, which covers the callbacks the module hands to library code
@@ -267,7 +324,7 @@ func c12Run(r *Run) {
 				continue
 			}
 			if reaches[fn] {
-				r.bad(key, call.Pos(), fmt.Sprintf("TempVM.%s delegates to Base.%s, from which the base VM's AddClass/AddInterface/AddFunc is reachable (it parses or autoloads with the base parser): definitions made for this request land in the base VM and every later request sees them", name, m))
+				r.bad(key, call.Pos(), fmt.Sprintf("TempVM.%s delegates to Base.%s, from which a base-VM method that stores a class/interface/function definition into the base VM is reachable: definitions made or resolved for this request land in the base VM and every later request sees them", name, m))
 			} else {
 				r.ok(key, call.Pos(), fmt.Sprintf("Base.%s cannot reach the base VM's Add*", m))
 			}
